@@ -174,6 +174,7 @@ def run_scenario(scn):
 
             cs.phase(main)
             LIVE.clear()  # the dead process' control loops are gone with it
+            cs.tr.extra.get("pulled", {}).clear()  # ... and so is whatever they had pulled but not yet reduced
         obs["case_phases"] = cs.phases
         return obs, cs
     finally:
